@@ -10,6 +10,9 @@ import (
 	"golang.org/x/tools/go/ssa"
 )
 
+// activeProperty: the property being checked ("" in the developer command): see unitsFor.
+var activeProperty string
+
 // Unit is the verification result of one function under contract or one lemma.
 type Unit struct {
 	Name     string
@@ -53,7 +56,7 @@ func (p *Program) VerifyContract(ct *Contract, tier string) *Unit {
 	for pass := 1; pass <= 6; pass++ {
 		u.Passes = pass
 		c.resetPass()
-		c.nopanic = ct.NoPanic
+		c.nopanic = ct.NoPanic && (activeProperty == "" || activeProperty == "C07")
 		c.tier = tier
 		func() {
 			defer func() {
